@@ -138,6 +138,7 @@ func CheckC20(run *evid.Run) {
 		}
 		ref := map[string][]byte{}
 		idents := map[string]*idp.Identity{} // name -> the identity its first creation yielded
+		var prevIdent *idp.Identity          // the identity of the previous identity operation (usually another name)
 		var ids []string
 		restarts := 0
 		var trace []string
@@ -193,8 +194,12 @@ func CheckC20(run *evid.Run) {
 				case 6:
 					id = fmt.Sprintf("x/./y-%d-%d", i, len(ids))
 					sibling = fmt.Sprintf("x/y-%d-%d", i, len(ids))
+				case 2:
+					if _, done := ref[""]; !done && i%3 == 0 {
+						id = "" // the empty id is an id like any other
+					}
 				}
-				if id[0] != 'i' {
+				if id == "" || id[0] != 'i' {
 					run.Count("path_like_ids_created", 1)
 				}
 				defer func(sibling string) {
@@ -448,6 +453,24 @@ func CheckC20(run *evid.Run) {
 					run.Violate("C20/entry-verify", det(), wit(), "entry signed with identity %q does not verify under the published key: %v", name, err)
 				}
 				run.Count("entries_signed_and_verified", 1)
+				// one provider object serving SEVERAL identities of its keystore: the identity of another writer, as a reader
+				// gets it (decoded from that writer's entry with THIS identity's provider), signs with its own key
+				if prevIdent != nil && prevIdent.ID != a.ID {
+					st2 := store.New()
+					if pe, err := entry.CreateEntry(ctx, st2.API(), prevIdent, &entry.Entry{LogID: "c20", Payload: []byte("by the earlier writer")}, nil); err == nil {
+						if rb, err := entry.FromMultihash(ctx, st2.API(), pe.GetHash(), a.Provider); err == nil && rb.GetIdentity() != nil {
+							other := rb.GetIdentity() // carries a.Provider, which has already signed for `a`
+							oe, err := entry.CreateEntry(ctx, st2.API(), other, &entry.Entry{LogID: "c20", Payload: []byte(fmt.Sprintf("second identity through one provider %d-%d", i, op))}, nil)
+							run.Count("entries_signed_for_a_second_identity_through_one_provider", 1)
+							if err != nil {
+								run.Violate("C20/sign-entry", det("provider", "shared by two identities"), wit(), "signing for a second identity through a provider that signed for another one before failed: %v", err)
+							} else if !bytes.Equal(oe.GetKey(), prevIdent.PublicKey) || oe.Verify(a.Provider, hx.InitIO()) != nil {
+								run.Violate("C20/entry-verify", det("provider", "shared by two identities"), wit(), "an entry signed for identity %s through the provider object that had signed for %s before does not verify under the published key of %s", hx.Short(prevIdent.ID), hx.Short(a.ID), hx.Short(prevIdent.ID))
+							}
+						}
+					}
+				}
+				prevIdent = a
 				// the identity a READER gets (decoded from the stored entry) is the same identity and is self-consistent too
 				for _, codec := range []string{"cbor", "link"} {
 					st := store.New()
